@@ -31,6 +31,7 @@ type ufsFid struct {
 	direntends []int
 	dirents    []byte
 	st         os.FileInfo
+	gone       bool // FidDestroy was called: nobody is going to close what is opened from now on
 }
 
 type Ufs struct {
@@ -282,6 +283,7 @@ func (*Ufs) FidDestroy(sfid *SrvFid) {
 		if fid.file != nil {
 			_ = fid.file.Close()
 		}
+		fid.gone = true
 		fid.Unlock()
 	}
 
@@ -403,6 +405,12 @@ func (*Ufs) Open(req *SrvReq) {
 
 	fid.Lock()
 	defer fid.Unlock()
+	if fid.gone {
+		/* a request that was started after its connection closed */
+		req.RespondError(Eunknownfid)
+		return
+	}
+
 	tc := req.Tc
 	err := fid.stat()
 	if err != nil {
@@ -428,6 +436,11 @@ func (ufs *Ufs) Create(req *SrvReq) {
 
 	fid.Lock()
 	defer fid.Unlock()
+	if fid.gone {
+		req.RespondError(Eunknownfid)
+		return
+	}
+
 	tc := req.Tc
 	err := fid.stat()
 	if err != nil {
@@ -472,6 +485,11 @@ func (ufs *Ufs) Create(req *SrvReq) {
 				opath = ofidaux.path
 				ofidaux.Unlock()
 				fid.Lock()
+				if fid.gone {
+					ofid.DecRef()
+					req.RespondError(Eunknownfid)
+					return
+				}
 			}
 			e = os.Link(opath, path)
 		} else {
